@@ -155,6 +155,16 @@ type c5mixed struct {
 	a     string
 	elems []*subject
 }
+
+// c5json: JSON-like data - a []interface{} whose elements are slices and one-entry maps (of strings
+// and of interface values), ranged as '.' by ONE inner range statement: the static type of every
+// element is interface{}, the way to range it differs from element to element.
+type c5json struct {
+	name  string
+	a, b  string
+	kinds []int // 0 []string  1 map[string]string (one entry)  2 []interface{}  3 map[string]interface{} (one entry)  4 empty []string
+}
+
 type c5try struct{ body []c5node }
 type c5fail struct{ id int }
 
@@ -171,6 +181,7 @@ type c5gen struct {
 	nLet    int
 	mixed   []*c5mixed
 	ifaces  []*c5iface
+	jsons   []*c5json
 }
 
 var condTable = []c5cond{
@@ -321,7 +332,7 @@ func (g *c5gen) stmt(depth int) c5node {
 		}
 		return 0
 	}
-	switch g.t.Weighted(2, 1, w(!deep, 3), w(!deep, 4), w(g.useTry && !deep, 1), w(g.useTry, 1), w(len(g.vis) > 0, 2), 1, w(!deep, 1), 1) {
+	switch g.t.Weighted(2, 1, w(!deep, 3), w(!deep, 4), w(g.useTry && !deep, 1), w(g.useTry, 1), w(len(g.vis) > 0, 2), 1, w(!deep, 1), 1, 1) {
 	case 0:
 		return c5text{g.mark()}
 	case 1:
@@ -447,6 +458,16 @@ func (g *c5gen) stmt(depth int) c5node {
 		}
 		g.ifaces = append(g.ifaces, f)
 		return f
+	case 10:
+		j := &c5json{name: fmt.Sprintf("js%d", len(g.jsons))}
+		g.nVar++
+		j.a, j.b = fmt.Sprintf("a%d", g.nVar), fmt.Sprintf("b%d", g.nVar)
+		n := g.t.Range(2, 5)
+		for i := 0; i < n; i++ {
+			j.kinds = append(j.kinds, g.t.Choose(5))
+		}
+		g.jsons = append(g.jsons, j)
+		return j
 	}
 	return c5text{g.mark()}
 }
@@ -466,6 +487,8 @@ func c5src(b *strings.Builder, ns []c5node) {
 			fmt.Fprintf(b, "{{%s := %q}}", n.name, n.val)
 		case *c5mixed:
 			fmt.Fprintf(b, "{{range %s}}{{range %s := .}}<{{%s}}>{{end}}|{{end}}", n.name, n.a, n.a)
+		case *c5json:
+			fmt.Fprintf(b, "{{range %s}}{{range %s, %s := .}}<{{%s}}={{%s}}>{{end}}|{{end}}", n.name, n.a, n.b, n.a, n.b)
 		case *c5iface:
 			if n.form == 0 {
 				fmt.Fprintf(b, "<if:{{range %s}}{{if .}}T{{else}}F{{end}}{{end}}>", n.name)
@@ -599,6 +622,14 @@ func (e *c5eval) run(b *strings.Builder, ns []c5node, ctx string) {
 			b.WriteString("<" + n.name + "=" + e.lookup(n.name) + ">")
 		case c5let:
 			e.frames[len(e.frames)-1][n.name] = n.val
+		case *c5json:
+			for i, k := range n.kinds {
+				for _, kv := range n.elemsOf(i, k) {
+					e.iters++
+					b.WriteString("<" + kv[0] + "=" + kv[1] + ">")
+				}
+				b.WriteString("|")
+			}
 		case *c5iface:
 			b.WriteString("<if:")
 			for _, i := range n.vals {
@@ -769,8 +800,38 @@ func canon(s string) string {
 }
 
 // c5vars builds the VarMap: condition values and fresh instances of every subject.
-func c5vars(subs []*subject, mixed []*c5mixed, ifaces []*c5iface, p *Probes, chans *[]reflect.Value) jet.VarMap {
+// elemsOf: keys and values of element i (of kind k) of the list
+func (j *c5json) elemsOf(i, k int) [][2]string {
+	switch k {
+	case 0, 2:
+		return [][2]string{{"0", fmt.Sprintf("%s_%d_p", j.name, i)}, {"1", fmt.Sprintf("%s_%d_q", j.name, i)}}
+	case 1, 3:
+		return [][2]string{{fmt.Sprintf("k%d", i), fmt.Sprintf("%s_%d_m", j.name, i)}}
+	}
+	return nil
+}
+
+func c5vars(subs []*subject, mixed []*c5mixed, ifaces []*c5iface, jsons []*c5json, p *Probes, chans *[]reflect.Value) jet.VarMap {
 	vm := jet.VarMap{}
+	for _, j := range jsons {
+		var list []interface{}
+		for i, k := range j.kinds {
+			kv := j.elemsOf(i, k)
+			switch k {
+			case 0:
+				list = append(list, []string{kv[0][1], kv[1][1]})
+			case 1:
+				list = append(list, map[string]string{kv[0][0]: kv[0][1]})
+			case 2:
+				list = append(list, []interface{}{kv[0][1], kv[1][1]})
+			case 3:
+				list = append(list, map[string]interface{}{kv[0][0]: kv[0][1]})
+			default:
+				list = append(list, []string{})
+			}
+		}
+		vm.Set(j.name, list)
+	}
 	for _, f := range ifaces {
 		var list []interface{}
 		for _, i := range f.vals {
@@ -980,7 +1041,7 @@ func RunC05(env *sim.Env) {
 				w := &SimWriter{}
 				p := &Probes{W: w, FailAt: pl.failAt, Tag: "x"}
 				var chans []reflect.Value
-				vm := c5vars(g.subs, g.mixed, g.ifaces, p, &chans)
+				vm := c5vars(g.subs, g.mixed, g.ifaces, g.jsons, p, &chans)
 				var xerr error
 				t0 := time.Now()
 				pc := sim.Guard(func() { xerr = tmpl.Execute(w, vm, "TOP") })
